@@ -517,8 +517,8 @@ func RegexPattern(r *mon.Rng, o RegexOpts) RegexCase {
 		for i := 0; i < 4; i++ {
 			m := body.sample(r)
 			add(m)
-			add("zz" + m)        // match at the end
-			add(m + "zz")        // match at the start
+			add("zz" + m)          // match at the end
+			add(m + "zz")          // match at the start
 			add("zz " + m + " zz") // match in the middle
 			if len(m) > 0 {
 				add(m[:len(m)-1])
